@@ -272,3 +272,10 @@ def h2(ctx: Ctx) -> None:
     from .events import check_identity_comparisons
 
     check_identity_comparisons(ctx, ["Market"], floor=30)
+
+
+@rule("C19.H3", "mechanism shared with C13: hooks that may rewrite the price of a pending order run before the market rounds and accepts it, in both phases", "T5 ordering (the acceptance part of C13.R3)", floor=4)
+def h3(ctx: Ctx) -> None:
+    from .c13 import check_call_sites
+
+    check_call_sites(ctx, {"accept"})
